@@ -923,7 +923,7 @@ def _native_histories(tier="quick", seed=0, only_templates=False):
     for f in corpus:
         if pick is None or os.path.basename(f) in pick:
             starts.append((os.path.basename(f), open(f, "rb").read()))
-    N = 10 if tier == "quick" else 60
+    N = 24 if tier == "quick" else 60
     L = 14 if tier == "quick" else 30
     for label, data in starts:
         bad = None
